@@ -91,10 +91,12 @@ def run(ctx):    return det
 def run(ctx):
     ctx.decided = ("verify-before-release: every path of aggregate_custom to Ok crosses the success edge of the group "
                    "key's verification of the very signature object that is returned, for the package's message "
-                   "(detect_cheater can never return Ok, so its continuation is dead); blame wiring: culprits are "
+                   "(the private blame helper — found by what it does, or the scan written in place — can never return Ok, so "
+                   "its continuation is dead); blame wiring, stated in aggregate_custom's vocabulary: culprits are "
                    "collected only from the failing share's own InvalidSignatureShare, produced for the loop's "
                    "current (identifier, share, verifying share of that identifier); the scan runs over the whole "
-                   "ordered map, stops early only for FirstCheater; share check names its identifier parameter.")
+                   "ordered map of post-hook shares, stops early only for FirstCheater, never runs when detection is disabled; the "
+                   "share check names its identifier parameter; Error::culprits() yields exactly what each variant carries.")
     ctx.undecided = ("that a failing share check coincides with 'differs from the honest share' and that cancelling "
                      "errors yield a valid signature (algebra, decided only as kernel agreement under C01/C18).")
     ctx.floor = 10
